@@ -74,7 +74,7 @@ def run(ck):
         npad = 40 if thorough else 4
         scripts = scripts[:-npad] + add_resyncs(base[-npad:], cats, rnd, mp, pad=True)
         out = mu.run_validate(ck, binp, cat, scripts, INV)
-        lost = [e for e in out["events"] if e["ev"] == "Resync" and e.get("fillers_missing", 0) > 0]
+        lost = [e for e in out["events"] if e["ev"] == "Resync" and e.get("res") == "ok" and e.get("fillers_missing", 0) > 0]
         if lost:
             ck.violation("resync lost %d blobs at a batch boundary (catalogue %s, %d filler blobs enumerated first)" % (
                 lost[0]["fillers_missing"], cat, lost[0]["b"]), {"event": {k: v for k, v in lost[0].items() if k != "v"}})
